@@ -252,7 +252,14 @@ def _insitu(ctx, mon, shard):
         data = [{"time": float(10 * i + rng.randrange(0, 5)), "width": 30 + i, "text": t} for i, t in enumerate(texts)]
         opts = {"scale": LinearScale(), "direction": rng.choice(["up", "down", "left", "right"]),
                 "initialWidth": 800, "initialHeight": 800, "labella": {"maxPos": 760}}
-        case = {"texts": texts, "direction": opts["direction"]}
+        custom = k % 5 == 2
+        if custom:
+            # the label text is what the caller's textFn returns (here: two fields of the row combined), not the "text" field
+            for i, d in enumerate(data):
+                d["who"] = rng.choice(["é", "ñ", "Z", "ü", "a\u0301"])
+            opts["textFn"] = lambda d: "%s: %s" % (d["who"], d["text"])
+            texts = ["%s: %s" % (d["who"], d["text"]) for d in data]
+        case = {"texts": texts, "direction": opts["direction"], "custom_textFn": custom}
         c0, v0 = mon.calls, mon.n_violations
         try:
             doc = TimelineTex(data, options=opts).export()
